@@ -22,6 +22,9 @@ GATES = ["settings_compared", "validate0_twin_checked", "parsed_false_checked", 
          "static_validate0_checked", "seekable_backend", "plain_backend"]
 
 
+BYSTANDERS = [0]
+
+
 def make(rng, with_damage):
     items = []
     n = rng.randint(3, 14)
@@ -75,6 +78,14 @@ def drive(data, validate, parsed, labelmsm, mode, seekable=False):
     ds = cls(data, budget=6 * len(data) + 16)
     rdr = RTCMReader(ds, validate=validate, parsed=parsed, labelmsm=labelmsm, quitonerror=mode,
                      errorhandler=(lambda e: None))
+    if len(data) % 2 == 0:
+        # a second reader with the OPPOSITE options is created afterwards and stays alive (never read): options are
+        # per reader
+        import io
+
+        bystander = RTCMReader(io.BytesIO(b""), validate=1 - validate, parsed=not parsed, labelmsm=3 - labelmsm
+                               if labelmsm in (1, 2) else 1, quitonerror=mode)
+        BYSTANDERS[0] += 1
     out = []
     guard = len(data) + 16
     while guard > 0:
